@@ -960,3 +960,68 @@ def _sec(ev, node):
 def _micro(ev, node):
     v = ev.e(node.args[0])
     return concretize(SInt(to_int_term(v.micro)))
+
+
+@specfn("LLen")
+def _llen(ev, node):
+    l = ev.heap[ev.e(node.args[0]).oid]
+    return concretize(SInt(l.length()))
+
+
+@specfn("LLo")
+def _llo(ev, node):
+    return concretize(SInt(ev.heap[ev.e(node.args[0]).oid].lo))
+
+
+@specfn("LHi")
+def _lhi(ev, node):
+    return concretize(SInt(ev.heap[ev.e(node.args[0]).oid].hi))
+
+
+@specfn("LId")
+def _lid(ev, node):
+    """LId(lst, k): id of the candle at position k (0-based) of a heap list"""
+    l = ev.heap[ev.e(node.args[0]).oid]
+    k = to_int_term(ev.e(node.args[1]))
+    return concretize(SInt(z3.Select(l.arr, z3.simplify(l.lo + k))))
+
+
+@specfn("LRaw")
+def _lraw(ev, node):
+    """LRaw(lst, p): id stored at absolute array position p"""
+    l = ev.heap[ev.e(node.args[0]).oid]
+    return concretize(SInt(z3.Select(l.arr, to_int_term(ev.e(node.args[1])))))
+
+
+@specfn("F")
+def _field(ev, node):
+    """F(store, 'field', id): a candle field on the heap model"""
+    cs = ev.heap[ev.e(node.args[0]).oid]
+    f = ev.e(node.args[1])
+    i = to_int_term(ev.e(node.args[2]))
+    t = cs.get(f, i)
+    if t.sort() == z3.RealSort():
+        return SFloat(t)
+    if t.sort() == z3.IntSort():
+        return concretize(SInt(t))
+    return wrap_bool(t)
+
+
+@specfn("CId")
+def _cid(ev, node):
+    return concretize(SInt(ev.e(node.args[0]).i))
+
+
+@specfn("F0")
+def _field0(ev, node):
+    """F0(store, 'field', id): the field as it was when the function under verification was entered"""
+    base = ev.ex.ctx.base_state
+    cs = base.heap[ev.e(node.args[0]).oid]
+    f = ev.e(node.args[1])
+    i = to_int_term(ev.e(node.args[2]))
+    t = cs.get(f, i)
+    if t.sort() == z3.RealSort():
+        return SFloat(t)
+    if t.sort() == z3.IntSort():
+        return concretize(SInt(t))
+    return wrap_bool(t)
